@@ -59,6 +59,44 @@ func (s *sim) check(a Action) {
 			}
 		}
 	}
+	// C03 on the terminal: a plain chunk is written as it came (newlines
+	// become CR LF), in one piece, nothing held back for later
+	if len(held) == 0 {
+		for i := range s.plainSent {
+			t := &s.plainSent[i]
+			if t.exactChecked || !bytes.Contains(out, []byte(t.key())) {
+				continue
+			}
+			t.exactChecked = true
+			want := bytes.ReplaceAll([]byte(t.text), []byte("\n"), []byte("\r\n"))
+			want = bytes.ReplaceAll(want, []byte("\r\r\n"), []byte("\r\n"))
+			if !bytes.Contains(out, want) && !bytes.Contains(out, []byte(t.text)) {
+				s.violate("C03", "plain-verbatim-on-terminal", "shell output not written to the terminal byte for byte in one piece",
+					"shell output %q is on the terminal, but not as the contiguous bytes %q (something was changed, reordered or held back)", t.text, string(want))
+				return
+			}
+		}
+	}
+	// C19, for any schedule: output X (sent at tX) was suppressed, so output
+	// was muted when X was handled and stays muted for the pause interval
+	// after it; output Y sent after X cannot be on the terminal before tX+pause
+	if len(held) == 0 && len(s.och) == 0 {
+		for i := range s.plainSent {
+			x := &s.plainSent[i]
+			if bytes.Contains(out, []byte(x.key())) {
+				continue
+			}
+			for j := i + 1; j < len(s.plainSent); j++ {
+				y := &s.plainSent[j]
+				if now < x.at+pause && bytes.Contains(out, []byte(y.key())) {
+					s.violate("C19", "mute-lasts-after-suppressed-output", "shell output displayed less than the pause interval after suppressed output",
+						"shell output %q (sent at t=%s) was suppressed, so output was muted then; yet %q, sent later, is on the terminal at t=%s, before t=%s",
+						x.key(), time.Duration(x.at), y.key(), time.Duration(now), time.Duration(x.at+pause))
+					return
+				}
+			}
+		}
+	}
 	// status lines always show
 	if len(held) == 0 {
 		for i := range s.statusSent {
@@ -109,7 +147,12 @@ func (s *sim) check(a Action) {
 		}
 	}
 	// operator input: typed lines and inserts arrive in order, an insert as one entry
-	if len(held) == 0 && !eqStr(s.got, s.expectIch) {
+	if s.stalled {
+		if len(s.got) > 0 && !(len(s.got) <= len(s.expectIch) && eqStr(s.got, s.expectIch[:len(s.got)])) {
+			s.violate("C02", "terminal-input-fifo", "what the operator entered is not what arrives on the input channel",
+				"entered %s; the input channel delivered %s", clipList(s.expectIch), clipList(s.got))
+		}
+	} else if len(held) == 0 && !eqStr(s.got, s.expectIch) {
 		if len(s.got) <= len(s.expectIch) && eqStr(s.got, s.expectIch[:len(s.got)]) && s.pendingInsert() {
 			return
 		}
